@@ -38,6 +38,12 @@ NAME_FAMILIES = {
                          "struct Ov { void m(); void m(int); static int s(); Ov(); Ov(int); ~Ov(); };\n"
                          "template<class T, class U> struct Tm { T t; U *u; }; struct UsesTm { Tm<int, float> a; Tm<char, Tm<int,int> > b; };\n"
                          "struct Nest { struct In { int i; } in; enum E { A } e; };\n"),
+    # enumerators that repeat a value (they become associated constants under the rust enum styles) and are spelled
+    # like Rust keywords; named, typedef'd and nested enums
+    "enum-alias-keywords": ("c", "enum token_kind { first = 0, type = 0, match = 1, other = 1, ref = 1, move = 2 };\n"
+                                 "typedef enum { k_a = 5, loop = 5, impl = 5 } td_enum;\n"
+                                 "struct has_enum { enum { in_a = 1, where = 1 } e; enum token_kind k; };\n"
+                                 "enum only_kw { fn = 1, mod = 2, use = 2 };\n"),
     # the same entity declared several times: extern declaration then definition (with initializer), tentative
     # definitions, prototype then definition, forward declaration then definition of a tag
     "redeclarations": ("c", "extern const int LIMIT;\nextern const unsigned MASK;\nextern int counter;\nint tentative;\nint tentative;\n"
